@@ -357,8 +357,11 @@ func createRoundTrip(c *vf.Ctx) {
 								pts = append(pts, point{kind, ci, st, h, x, t, (ci + st + 3*h + 5*x + 7*t) % len(sers)})
 							}
 						} else {
+							// two of the six time classes per point, rotating over the other coordinates
 							i := ci + st + h + x
-							pts = append(pts, point{kind, ci, st, h, x, (i + kind) % len(tcs), (ci*7 + st*3 + h + 5*x + kind) % len(sers)})
+							for _, t := range []int{(i + kind) % len(tcs), (i + kind + 3) % len(tcs)} {
+								pts = append(pts, point{kind, ci, st, h, x, t, (ci*7 + st*3 + h + 5*x + kind + t) % len(sers)})
+							}
 						}
 					}
 				}
